@@ -29,6 +29,11 @@ func VerifC14() {
 			old = append(old, verifBaseRule14(i))
 		}
 	}
+	// the new lists are written from values taken before the load (callers build fresh objects; the library must not depend on, or change, the loaded ones)
+	snap := make([]Rule, len(old))
+	for i, r := range old {
+		snap[i] = *r
+	}
 	if _, err := LoadRules(old); err != nil {
 		rt.Assert(false, "initial load failed")
 		return
@@ -45,10 +50,10 @@ func VerifC14() {
 		c := rt.Choice(2*nOld + 1)
 		switch {
 		case c < nOld:
-			x := *old[c]
+			x := snap[c]
 			nl, kind[i] = append(nl, &x), rep[c]
 		case c < 2*nOld:
-			x := *old[c-nOld]
+			x := snap[c-nOld]
 			x.Threshold += 100 // same statistic shape, different threshold
 			nl, kind[i] = append(nl, &x), 10+rep[c-nOld]
 		default:
